@@ -1,2 +1,128 @@
-(* C03 -- placeholder while the theorems are being proved: the model compiles. *)
-From Sylt Require Import Syntax.Resolved Types.TyGraph Types.Tc.
+(* C03 -- Type mismatches are rejected at compile time.
+   Only pinned statements, `exact`, Examples by vm_compute, and Print Assumptions. *)
+From Coq Require Import String List NArith ZArith PArith Bool FMapPositive.
+From Sylt Require Import Syntax.Resolved Types.TyGraph Types.Tc Types.Ctx Types.TcInv Types.Reject Types.Mismatch.
+Import ListNotations.
+Local Open Scope string_scope.
+
+(* Placement.  For every mismatch of the listed kinds (bad_expr / bad_stmt: an arithmetic or ordering
+   operator on incompatible literal types, == between different types, not / and / or on a non-bool, unary
+   minus on a non-number, calling a non-function, a non-bool if / loop condition, a heterogeneous list, a
+   value contradicting the declared type of the variable it initialises) and every one-hole program
+   context P (every syntactic position inside the value of any top-level definition, at any depth -
+   operand, argument, list / tuple element, blob field initialiser, condition, branch, loop body, function
+   and closure body, case arm, unused expression statement - or a top-level definition itself), every fuel
+   and every variable table: the type checker does not return Ok. *)
+Theorem C03_placement : forall (e : expr) (st : stmt) (P : pctx) (fuel : nat) (vars : list var),
+  bad_expr e -> bad_stmt st ->
+  typecheck fuel (mkResolved vars (plug_p e st P)) <> Ok tt.
+Proof. exact Mismatch.C03_placement. Qed.
+
+(* The same for an expression mismatch in any expression position or as an unused expression statement. *)
+Theorem C03_placement_expr : forall e sp P fuel vars,
+  bad_expr e -> typecheck fuel (mkResolved vars (plug_p e (SStatementExpression e sp) P)) <> Ok tt.
+Proof. exact Mismatch.C03_placement_expr. Qed.
+
+(* Propagation alone, for any filler: if the checker rejects the filler in the TypeCtx it has at the hole
+   (in every well-formed state, with every fuel), it rejects the plugged expression / statement. *)
+Theorem C03_propagation : forall kinds G (PG : gpres G) he hs f,
+  (forall C ctx s, wf s -> at_e (rej_e kinds G he) (rej_s kinds G hs) C ctx ->
+                   notok (r_expr (afix kinds G f) (plug_e he hs C) ctx s)) /\
+  (forall C ctx s, wf s -> at_s (rej_e kinds G he) (rej_s kinds G hs) C ctx ->
+                   notok (r_stmt (afix kinds G f) (plug_s he hs C) ctx s)).
+Proof. exact Reject.placement_gen. Qed.
+
+(* No output on error: the model of compile produces Lua only when the type checker returned Ok. *)
+Theorem C03_no_output_on_error : forall {L} (lower : resolved -> L) fuel r,
+  (forall lua, compile_after_order lower fuel r = COk lua -> typecheck fuel r = Ok tt /\ lua = lower r) /\
+  (forall e more, compile_after_order lower fuel r = CErr e more -> typecheck fuel r = Err e more) /\
+  (typecheck fuel r <> Ok tt -> forall lua, compile_after_order lower fuel r <> COk lua).
+Proof. intros L. exact (@Reject.no_output_on_error L). Qed.
+
+Theorem C03_no_output : forall {L} (lower : resolved -> L) e st P fuel vars,
+  bad_expr e -> bad_stmt st ->
+  forall lua, compile_after_order lower fuel (mkResolved vars (plug_p e st P)) <> COk lua.
+Proof. intros L. exact (@Mismatch.C03_no_output L). Qed.
+
+(* The invariants of the type graph the local rejection lemmas rest on (DESIGN 2.4). *)
+Theorem C03_rep_idempotent_in_range : forall s i r,
+  wf s -> rep s i = Some r -> rep s r = Some r /\ (r < next s)%positive.
+Proof. exact TcInv.rep_idempotent_in_range. Qed.
+
+Theorem C03_reachable_wf : forall fuel kinds stmts start nvars a s',
+  (bind (init_vars nvars) (fun _ => solve kinds (gfix fuel) (afix kinds (gfix fuel) fuel) stmts start)) empty_st = Ok (a, s') ->
+  wf s'.
+Proof. exact TcInv.reachable_wf. Qed.
+
+Theorem C03_push_keeps_classes : forall t s i s',
+  wf s -> push_type t s = Ok (i, s') ->
+  i = next s /\ (forall j n, lk s j = Some n -> lk s' j = Some n /\ rep s' j = rep s j /\ head s' j = head s j).
+Proof. exact TcInv.push_keeps_classes. Qed.
+
+Theorem C03_unify_same_rep : forall g sp a b s r s',
+  wf s -> unify (gfix g) sp a b s = Ok (r, s') ->
+  wf s' /\ ext s s' /\
+  (exists q, rep s' a = Some q /\ rep s' b = Some q) /\
+  (exists ha hb, head s a = Some ha /\ head s b = Some hb /\ (rep s a = rep s b \/ unify_compat ha hb)).
+Proof. exact TcInv.unify_same_rep. Qed.
+
+Theorem C03_head_stable : forall {A} (m : M A) s a s' i h,
+  pres m -> wf s -> m s = Ok (a, s') -> head s i = Some h -> is_unknown h = false ->
+  exists h', head s' i = Some h' /\ same_shape h h' = true.
+Proof. intros A. exact (@TcInv.head_stable A). Qed.
+
+Theorem C03_every_function_preserves : forall g kinds f,
+  gpres (gfix g) /\ apres (afix kinds (gfix g) f).
+Proof. intros. split; [apply gfix_pres|apply afix_pres, gfix_pres]. Qed.
+
+(* ---- non-vacuity: a concrete program `start :: fn do <body> end` *)
+Definition sp0 : span := mkSpan 0 1 1 1 2.
+Definition spl (l : N) : span := mkSpan 0 l l 1 2.
+Definition prog (body : list stmt) : resolved :=
+  mkResolved [mkVar 0 "start" sp0 true Const; mkVar 1 "x" (spl 2) false Mutable]
+             [SDefinition "start" 0 Const (TImplied sp0)
+                          (EFunction "lambda" [] (TResolved BVoid sp0) body false sp0) sp0].
+
+(* accepted: start :: fn do x := 1 + 2; if x > 1 do x = x * 2 end end *)
+Example C03_example_accepts :
+  typecheck 40 (prog [SDefinition "x" 1 Mutable (TImplied (spl 2)) (EBinOp Add (EInt 1 (spl 2)) (EInt 2 (spl 2)) (spl 2)) (spl 2);
+                      SStatementExpression
+                        (EIf [IfBranch (Some (EBinOp Greater (ERead 1 (spl 3)) (EInt 1 (spl 3)) (spl 3)))
+                                       [SAssignment Nop (ERead 1 (spl 4)) (EBinOp Mul (ERead 1 (spl 4)) (EInt 2 (spl 4)) (spl 4)) (spl 4)]
+                                       (spl 3)] (spl 3)) (spl 3)])
+  = Ok tt.
+Proof. vm_compute. reflexivity. Qed.
+
+(* the hypotheses of the placement theorem are satisfiable, and the rejection is an Err with the expected
+   kind and line: 1 + "a" planted in the condition of the `if` inside the function body *)
+Example C03_example_bad : bad_expr (EBinOp Add (EInt 1 (spl 3)) (EStr "a" (spl 3)) (spl 3)).
+Proof. eapply BadArith with (k := AAdd); reflexivity. Qed.
+
+Example C03_example_rejects :
+  typecheck 40 (prog [SDefinition "x" 1 Mutable (TImplied (spl 2)) (EInt 1 (spl 2)) (spl 2);
+                      SStatementExpression
+                        (EIf [IfBranch (Some (EBinOp Greater (EBinOp Add (EInt 1 (spl 3)) (EStr "a" (spl 3)) (spl 3))
+                                                     (EInt 1 (spl 3)) (spl 3)))
+                                       [] (spl 3)] (spl 3)) (spl 3)])
+  = Err (mkErr KBinOp (spl 3)) [].
+Proof. vm_compute. reflexivity. Qed.
+
+Example C03_example_var_type : bad_stmt (SDefinition "x" 1 Mutable (TResolved BInt (spl 2)) (EStr "a" (spl 2)) (spl 2)).
+Proof. eapply BadVarType; reflexivity. Qed.
+
+Example C03_example_var_type_rejects :
+  typecheck 40 (prog [SDefinition "x" 1 Mutable (TResolved BInt (spl 2)) (EStr "a" (spl 2)) (spl 2)])
+  = Err (mkErr KMismatch (spl 2)) [].
+Proof. vm_compute. reflexivity. Qed.
+
+Print Assumptions C03_placement.
+Print Assumptions C03_placement_expr.
+Print Assumptions C03_propagation.
+Print Assumptions C03_no_output_on_error.
+Print Assumptions C03_no_output.
+Print Assumptions C03_rep_idempotent_in_range.
+Print Assumptions C03_reachable_wf.
+Print Assumptions C03_push_keeps_classes.
+Print Assumptions C03_unify_same_rep.
+Print Assumptions C03_head_stable.
+Print Assumptions C03_every_function_preserves.
